@@ -61,6 +61,15 @@ def gen_cases(rng, tier):
     route = ["potable", "cli", "api_legacy", "api_class"][(i + i // 7) % 4]
     model, k = spec.exact_boundary_model(rng, "LAMMPS", v, shared=route.startswith("api"))
     cases.append({"route": route, "model": model, "style": rng.randrange(1 << 30), "exact_boundary": v, "root_on_grid": k})
+  # plain Python callables whose first rows are whole numbers returned as int (a capped core: 100 below r_c), floats later
+  for i in range(6 if tier == "quick" else 40):
+    nr = rng.choice([5, 9, 21, 41])
+    cutoff = (nr - 1) * 0.25
+    rc = rng.choice([0.5, 1.0, 1.5])
+    node = {"k": "ranges", "parts": [[">=", 0.0, {"k": "form", "name": "constant", "p": [rng.choice([100.0, 50.0, 7.0])]}],
+                                      [">", rc, {"k": "form", "name": "polynomial", "p": [spec.rfloat(rng, 1.0, 5.0), spec.rfloat(rng, -1.0, -0.2), spec.rfloat(rng, 0.01, 0.1)]}]]}
+    model = {"type": "pair", "target": "LAMMPS", "tab": {"nr": nr, "cutoff": cutoff}, "forms": [], "tables": [], "pair": [["Ar", "Kr", node]], "api_results": "int_when_whole"}
+    cases.append({"route": ["api_class", "api_legacy"][i % 2], "model": model, "style": rng.randrange(1 << 30)})
   # row-count sweep (everything small, m*10^k, 2^k, multiples of 5000, each with neighbours): structure and end values
   szs = spec.edge_sizes(tier, multiple_of=1, lo=2)   # nr = 2: a table of ONE row, at r = cutoff
   for c0 in range(0, len(szs), 12):
@@ -89,7 +98,7 @@ def run_case(case, ctx):
   refs = []
   for a, b, node in model["pair"]:
     n2 = spec.wrap_potable(node) if groute == "potable" else node
-    refs.append(oracle.ValueOracle(M, n2, analytic=spec.all_analytic(node)))
+    refs.append(oracle.ValueOracle(M, n2, analytic=spec.all_analytic(node) and model.get("api_results") != "int_when_whole"))   # that wrapper offers no derivatives
     for k in spec.node_kinds(node):
       ctx.cls("kind:" + k)
 
